@@ -12,7 +12,7 @@ import (
 func init() {
 	register(&propInfo{
 		ID:          "C10",
-		Explanation: "Static index-safety and key-hygiene analysis of every place where bytes decoded from a peer steer an operation that can panic: (R10.1) every index into a slice filled by a JSON decode is dominated by a length test that makes it in-range; (R10.2) every interface-typed key used on the per-connection tables originates from the id normaliser (or from locally generated requests); (R10.3) the frame executor dispatches only on the nil branches of both the frame-decode error and the id-normalisation error; (R10.4) results of comma-ok table lookups are used only on the found branch; (R10.5) the HTTP body is read through a limit strictly above the configured maximum, rejected exactly when it exceeds that maximum, and the rejection reaches neither a decoder nor the dispatcher; (R10.6) type assertions on decoded interface values use the comma-ok form. R10.1 also tracks tails s[k:] of decoded slices (in place or returned by a helper) with the known length minus k.",
+		Explanation: "Static index-safety and key-hygiene analysis of every place where bytes decoded from a peer steer an operation that can panic: (R10.1) every index into a slice filled by a JSON decode is dominated by a length test that makes it in-range; (R10.2) every interface-typed key used on the per-connection tables originates from the id normaliser (or from locally generated requests); (R10.3) the frame executor dispatches only on the nil branches of both the frame-decode error and the id-normalisation error; (R10.4) results of comma-ok table lookups are used only on the found branch; (R10.5) the HTTP body is read through a limit strictly above the configured maximum, rejected exactly when it exceeds that maximum, and the rejection reaches neither a decoder nor the dispatcher; (R10.6) type assertions on decoded interface values use the comma-ok form. R10.1 also tracks tails s[k:] of decoded slices (in place or returned by a helper) with the known length minus k. (R10.9) a completion is delivered at most once per in-flight entry.",
 		NotDecided:  "Memory exhaustion by huge WebSocket frames (no read limit is configured by the library), panics inside user-supplied codecs, indexes into slices whose length is tied to the index by library invariants rather than by a local test (e.g. bytes.Buffer length), and whether a server keeps answering (liveness).",
 		Assumptions: []string{
 			"a slice is peer-sized when it is a local filled by encoding/json.Unmarshal or (*json.Decoder).Decode",
@@ -909,13 +909,55 @@ func (c *Ctx) unguardedLookupUse(val, okv ssa.Value, depth int) ssa.Instruction 
 		if okv != nil && condKnown(use.Block(), okv, true) {
 			continue
 		}
-		if rt, ok := use.(*ssa.Return); ok && okv != nil && depth < 3 {
+		// results spilled around a deferred call (defer mu.Unlock(); return v, ok): the use is the store
+		// into / the reload from the result slot, the return follows
+		var spillRet *ssa.Return
+		if ld, isLd := use.(*ssa.UnOp); isLd && ld.Op == token.MUL && ld.Referrers() != nil {
+			for _, r2 := range *ld.Referrers() {
+				if rt, isRt := r2.(*ssa.Return); isRt {
+					spillRet = rt
+				} else if _, isDbg := r2.(*ssa.DebugRef); !isDbg {
+					spillRet = nil
+					break
+				}
+			}
+		}
+		if spillRet != nil && okv != nil {
+			// the value was put into the result slot only where the lookup is known to have succeeded
+			// (return nil, false on the other path): the reload before the return is not a use of its own
+			if al, isAl := use.(*ssa.UnOp).X.(*ssa.Alloc); isAl {
+				guarded, n := true, 0
+				for _, ref := range *al.Referrers() {
+					if st, isSt := ref.(*ssa.Store); isSt && st.Addr == ssa.Value(al) && st.Val == val {
+						n++
+						if !condKnown(st.Block(), okv, true) {
+							guarded = false
+						}
+					}
+				}
+				mixed := false
+				for _, ref := range *al.Referrers() {
+					if st, isSt := ref.(*ssa.Store); isSt && st.Addr == ssa.Value(al) && st.Val != val {
+						mixed = true
+					}
+				}
+				if n > 0 && guarded && mixed {
+					continue
+				}
+			}
+		}
+		rt, ok := use.(*ssa.Return)
+		if !ok && spillRet != nil {
+			rt, ok = spillRet, true
+		}
+		if ok && okv != nil && depth < 3 {
 			vi, oi := -1, -1
 			for i, res := range rt.Results {
-				if res == val {
+				rv := blockLocalValue(res)
+				if res == val || rv == val || spilledFrom(res, val) {
 					vi = i
 				}
-				if res == okv {
+				if res == okv || rv == okv || spilledFrom(res, okv) {
 					oi = i
 				}
 			}
@@ -1564,4 +1606,26 @@ func (c *Ctx) bodyBytesIndexRule(rule string) {
 	if n == 0 {
 		c.ok(rule, "no index into buffer bytes", "-", "the reader no longer peeks into the raw body bytes")
 	}
+}
+
+// spilledFrom: res is a reload of a result slot whose every store is v.
+func spilledFrom(res, v ssa.Value) bool {
+	ld, ok := res.(*ssa.UnOp)
+	if !ok || ld.Op != token.MUL {
+		return false
+	}
+	al, ok := ld.X.(*ssa.Alloc)
+	if !ok {
+		return false
+	}
+	n := 0
+	for _, ref := range *al.Referrers() {
+		if st, ok := ref.(*ssa.Store); ok && st.Addr == ssa.Value(al) {
+			if st.Val != v {
+				return false
+			}
+			n++
+		}
+	}
+	return n > 0
 }
